@@ -62,6 +62,22 @@ def vv_namespace(ctx):
                     ctx.violation("a mailbox deleted and created again did not get a larger UIDVALIDITY",
                                   {"mailbox": nm, "earlier_values": seen, "new_value": v})
                 seen[nm].append(v)
+            # the newest mailbox (the one holding the highest UIDVALIDITY) is deleted for good, the server restarts
+            # before anything else is created, the name is created again
+            w.cmd("A", "t CREATE newest")
+            lit = W.make_msg(2)
+            w.cmd("A", f"t APPEND newest {{{len(lit)}}}\r\n" + lit.decode())
+            old_v = vv("newest")
+            w.cmd("A", "t DELETE newest")
+            w.restart()
+            w.session("A")
+            w.cmd("A", "t CREATE newest")
+            new_v = vv("newest")
+            n += 1
+            ctx.count({"vv_history": "newest mailbox deleted, restart, created again", "values": [old_v, new_v]}, nontrivial=True)
+            if new_v is None or old_v is None or new_v <= old_v:
+                ctx.violation("a mailbox deleted and created again (with a restart in between) did not get a larger UIDVALIDITY",
+                              {"mailbox": "newest", "before": old_v, "after": new_v})
             before = vv("aa")
             w.cmd("A", "t RENAME aa zz")
             after = vv("zz")
